@@ -443,3 +443,79 @@ func (tp *Tuple) Sizes() (int, int) {
 	out := len(tp.Outer.Message()) + 1 + 4 + 1 + 2 + 32 + 2 + enc + 16
 	return in, out
 }
+
+// PlainOpts steers GenPlain.
+type PlainOpts struct {
+	ECH       []byte // if non-nil: body of an ECH extension to include
+	NoTLS13   bool   // do not offer TLS 1.3
+	ForceSNI  string // non-empty: use this server name
+	NoExtKind int    // 0 normal, 1 no extension block, 2 empty block
+	Big       bool
+}
+
+// GenPlain draws a syntactically valid ClientHello (arbitrary extension types,
+// order and contents) following the options.
+func GenPlain(t *rapid.T, label string, o PlainOpts) *Hello {
+	h := GenBase(t, label)
+	if o.NoExtKind == 1 {
+		h.NoExtBlock = true
+		return h
+	}
+	if o.NoExtKind == 2 {
+		return h
+	}
+	used := map[uint16]bool{}
+	var exts []Ext
+	if o.ForceSNI != "" {
+		exts = append(exts, Ext{ExtSNI, SNIExt(o.ForceSNI)})
+	} else if rapid.IntRange(0, 5).Draw(t, label+"_sni") != 0 {
+		exts = append(exts, Ext{ExtSNI, SNIExt(GenName(t, label+"_name", 253))})
+	}
+	if a := GenALPN(t, label+"_alpn"); len(a) > 0 {
+		exts = append(exts, Ext{ExtALPN, ALPNExt(a)})
+	}
+	if o.NoTLS13 {
+		switch rapid.IntRange(0, 2).Draw(t, label+"_lowv") {
+		case 0: // no supported_versions
+		case 1:
+			exts = append(exts, Ext{ExtSupportedVersions, VersionsExt([]uint16{0x0303})})
+		default:
+			exts = append(exts, Ext{ExtSupportedVersions, VersionsExt([]uint16{0x0303, 0x0302, 0x0301})})
+		}
+	} else {
+		vs := []uint16{0x0304}
+		if rapid.Bool().Draw(t, label+"_v12") {
+			vs = append(vs, 0x0303)
+		}
+		if rapid.IntRange(0, 3).Draw(t, label+"_vg") == 0 {
+			vs = append([]uint16{0xdada}, vs...)
+		}
+		exts = append(exts, Ext{ExtSupportedVersions, VersionsExt(vs)})
+	}
+	if o.ECH != nil {
+		exts = append(exts, Ext{ExtECH, o.ECH})
+	}
+	n := rapid.IntRange(0, 14).Draw(t, label+"_nfree")
+	for i := 0; i < n; i++ {
+		exts = append(exts, GenFreeExt(t, fmt.Sprintf("%s_free%d", label, i), used))
+	}
+	if o.Big && !used[21] {
+		exts = append(exts, Ext{21, make([]byte, rapid.IntRange(9000, 15200).Draw(t, label+"_bigpad"))})
+	}
+	exts = rapid.Permutation(exts).Draw(t, label+"_perm")
+	if !o.NoTLS13 && rapid.IntRange(0, 4).Draw(t, label+"_psk") == 0 {
+		idl := rapid.IntRange(1, 64).Draw(t, label+"_psk_idlen")
+		ids := append(u16(idl), genBytes(t, label+"_psk_id", idl)...)
+		ids = append(ids, 0, 0, 0, 0)
+		b := append(u16(len(ids)), ids...)
+		b = append(b, u16(33)...)
+		b = append(b, 32)
+		b = append(b, genBytes(t, label+"_psk_binder", 32)...)
+		exts = append(exts, Ext{ExtPSK, b})
+	}
+	h.Exts = exts
+	return h
+}
+
+// GenBytes exposes the cheap byte generator.
+func GenBytes(t *rapid.T, label string, n int) []byte { return genBytes(t, label, n) }
